@@ -6,6 +6,7 @@ of `C15.windows_chain` uses (core Lean 4.33 does not have it).
 -/
 import Batteries.Data.List.Basic
 import PeroVerif.Model.Merge
+import PeroVerif.Lemmas.LevExtra
 
 /-! ### More Python-slice lemmas (natural-number forms) -/
 namespace Py
@@ -214,5 +215,85 @@ theorem mergeAll_text_indep {γ : Type} (parts : List (List α × List β)) (par
         rw [hs, hs]; exact h.2
 
 end textonly
+
+/-! ### Specification of the overlap search (C15.findBestOverlap_spec, exact_overlap_found) -/
+section ovspec
+variable {α : Type} [DecidableEq α]
+
+/-- distance between the last `i` symbols of `t1` and the first `i` of `t2` (numerator of `cer` in `find_best_overlap`) -/
+def ovDist (t1 t2 : List α) (i : Nat) : Nat :=
+  Lev.dist Lev.unit (t1.drop (t1.length - i)) (t2.take i)
+
+/-- invariant of the search loop after the candidates `1..n` -/
+def OvInv (d : Nat → Nat) (n : Nat) (st : Nat × Nat × Nat) : Prop :=
+  1 ≤ st.2.1 ∧ st.1 ≤ st.2.1 ∧
+  ((st.2.2 = 0 ∧ st.1 = 1 ∧ st.2.1 = 1) ∨
+   (1 ≤ st.2.2 ∧ st.2.2 ≤ n ∧ st.1 = d st.2.2 ∧ st.2.1 = st.2.2 ∧ st.1 < st.2.1)) ∧
+  (∀ i, 1 ≤ i → i ≤ n → st.1 * i ≤ d i * st.2.1) ∧
+  (∀ i, 1 ≤ i → i < st.2.2 → st.1 * i < d i * st.2.1)
+
+theorem ovInv_step (t1 t2 : List α) (n : Nat) (st : Nat × Nat × Nat) (h : OvInv (ovDist t1 t2) n st) :
+    OvInv (ovDist t1 t2) (n + 1) (overlapStep t1 t2 st n) := by
+  obtain ⟨hden, hnd, hcase, hle, hlt⟩ := h
+  have hb : st.2.2 ≤ n := by rcases hcase with ⟨h0, _, _⟩ | ⟨_, h1, _⟩ <;> omega
+  unfold overlapStep
+  dsimp only
+  change OvInv (ovDist t1 t2) (n + 1)
+    (if ovDist t1 t2 (n + 1) * st.2.1 < st.1 * (n + 1) then (ovDist t1 t2 (n + 1), n + 1, n + 1) else st)
+  generalize hd : ovDist t1 t2 (n + 1) = dn
+  split
+  next hupd =>
+    -- the new candidate is strictly better than everything before
+    have hdn : dn < n + 1 := by
+      have h1 : st.1 * (n + 1) ≤ st.2.1 * (n + 1) := Nat.mul_le_mul_right _ hnd
+      have h2 : dn * st.2.1 < (n + 1) * st.2.1 := by rw [Nat.mul_comm (n + 1)]; omega
+      exact Nat.lt_of_mul_lt_mul_right h2
+    have key : ∀ j, 1 ≤ j → j ≤ n → dn * j < ovDist t1 t2 j * (n + 1) := by
+      intro j hj1 hjn
+      have h1 : dn * st.2.1 * j < st.1 * (n + 1) * j := Nat.mul_lt_mul_of_pos_right hupd (by omega)
+      have h2 : st.1 * j * (n + 1) ≤ ovDist t1 t2 j * st.2.1 * (n + 1) := Nat.mul_le_mul_right _ (hle j hj1 hjn)
+      have h3 : dn * j * st.2.1 < ovDist t1 t2 j * (n + 1) * st.2.1 := by
+        calc dn * j * st.2.1 = dn * st.2.1 * j := by ac_rfl
+          _ < st.1 * (n + 1) * j := h1
+          _ = st.1 * j * (n + 1) := by ac_rfl
+          _ ≤ ovDist t1 t2 j * st.2.1 * (n + 1) := h2
+          _ = ovDist t1 t2 j * (n + 1) * st.2.1 := by ac_rfl
+      exact Nat.lt_of_mul_lt_mul_right h3
+    refine ⟨by simp, by simp; omega, Or.inr ⟨by simp, by simp, by simp [hd], rfl, by simpa using hdn⟩, ?_, ?_⟩
+    · intro j hj1 hjn
+      simp only
+      rcases Nat.lt_or_ge j (n + 1) with hlt' | hge
+      · exact Nat.le_of_lt (key j hj1 (by omega))
+      · have : j = n + 1 := by omega
+        subst this; rw [hd]; exact Nat.le_refl _
+    · intro j hj1 hjn
+      simp only at hjn ⊢
+      exact key j hj1 (by omega)
+  next hno =>
+    refine ⟨hden, hnd, ?_, ?_, hlt⟩
+    · rcases hcase with h0 | ⟨a, b, c, d, e⟩
+      · exact Or.inl h0
+      · exact Or.inr ⟨a, by omega, c, d, e⟩
+    · intro j hj1 hjn
+      rcases Nat.lt_or_ge j (n + 1) with hlt' | hge
+      · exact hle j hj1 (by omega)
+      · have : j = n + 1 := by omega
+        subst this; rw [hd]; omega
+
+theorem foldl_range_inv {σ : Type} (P : Nat → σ → Prop) (f : σ → Nat → σ) (s : σ) (h0 : P 0 s)
+    (hstep : ∀ n st, P n st → P (n + 1) (f st n)) : ∀ m, P m ((List.range m).foldl f s) := by
+  intro m
+  induction m with
+  | zero => simpa using h0
+  | succ m ih => rw [List.range_succ, List.foldl_append]; exact hstep m _ ih
+
+theorem findBestOverlap_inv (t1 t2 : List α) :
+    OvInv (ovDist t1 t2) (min t1.length t2.length)
+      ((List.range (min t1.length t2.length)).foldl (overlapStep t1 t2) (1, 1, 0)) := by
+  apply foldl_range_inv (OvInv (ovDist t1 t2))
+  · exact ⟨by simp, by simp, Or.inl ⟨rfl, rfl, rfl⟩, by intro i h1 h2; omega, by intro i h1 h2; simp at h2⟩
+  · intro n st h; exact ovInv_step t1 t2 n st h
+
+end ovspec
 
 end Merge
